@@ -1077,10 +1077,14 @@ class IMAPSubprocessInterface:
         client.
         """
         try:
+            # The responses are relayed as they come. They do not need to be
+            # split up in to lines (and a long run of literal data without
+            # a line break would overrun the stream reader's limit.)
+            #
             while True:
-                if self.reader.at_eof():
+                msg = await self.reader.read(65536)
+                if not msg:
                     break
-                msg = await self.reader.readuntil(b"\r\n")
                 await self.imap_client.push(msg)
         except (OSError, asyncio.IncompleteReadError, ConnectionResetError):
             pass
